@@ -1426,6 +1426,11 @@ def formula_specs(trees):
                              fragment=frag_exposure_core,
                              what='one entry; the two arithmetic assignments (`y = y / exposure`, `weights = weights * exposure`) and the final '
                                   '`return y, weights`, with validation, casts and the `None` defaults left to the hand-written model'))
+    specs.append(FormulaSpec('poisson_predict', 'gam', ('pygam.py', 'PoissonGAM', 'predict', None),
+                             pre=[('rate', 'α')], params=['X', 'S'], attrs=gam_attrs,
+                             callees={'self.predict_mu': dict(kind='value', t='S', lean='rate')},
+                             fragment=frag_final_return,
+                             what='one entry; the final `return` (after validation, the float32 cast and the `None` default of `exposure`); `self.predict_mu(X)` ↦ `rate`'))
     # the built-in Deviance callback: what is logged at the start of each iteration (C20)
     cb_attrs = {'dist.distribution': ('D', None)}      # the `gam` parameter has role 'D' (an object whose attributes are read): its paths start with `dist`
     specs.append(FormulaSpec('callback_deviance', 'gam', ('callbacks.py', 'Deviance', 'on_loop_start', None),
@@ -1606,6 +1611,13 @@ def frag_exposure_core(fn):
     if not isinstance(fn.body[-1], ast.Return):
         raise Unsupported('the method does not end in `return`')
     return picked + [fn.body[-1]]
+
+
+def frag_final_return(fn):
+    """the method's final `return` statement alone (what is computed once the inputs are validated)"""
+    if not isinstance(fn.body[-1], ast.Return):
+        raise Unsupported('the method does not end in `return`')
+    return [fn.body[-1]]
 
 
 frag_leading_raises = make_frag_leading_raises('n_draws')
